@@ -11,6 +11,8 @@ PID = "C17"
 PALETTE = ["#000001", "#000002", "#000003", "#000004"]
 COMMITS = {1: "ea82f2d0", 2: "^b2257cf", 3: "0123abcd", 4: "fedc9876"}
 AUTHORS = {1: "Dan Davison", 2: "Ann Other 世界", 3: "Zoë", 4: "Émile de la Tour-Grande"}
+# long names made of (or ending in) double-width characters: the author column cuts them by characters
+AUTHORS_WIDE = {1: "山田太郎左衛門尉景元", 2: "Kangwook Lee (이강욱)", 3: "Zoë", 4: "田中鈴木佐藤高橋渡辺伊藤山本中村"}
 TIMES = {1: "2021-08-22 18:20:19 -0700", 2: "2020-01-02 03:04:05 +0100", 3: "1999-12-31 23:59:59 +0000",
          4: "2022-02-28 00:00:01 +1345"}
 CODES = ["    let x = 1;", "", "\tfn main() { 世界 }", "}", " // note: (not a blame) 12)", "x" * 30]
@@ -22,7 +24,7 @@ FORMATS = {
 _ROW = re.compile(r"^(.*?)[│|] *(\d*) *[│|](.*)$")
 
 
-def make_input(ks, renamed):
+def make_input(ks, renamed, AUTHORS=AUTHORS):
     lines, meta = [], []
     for i, k in enumerate(ks):
         code = CODES[(i * 7 + k) % len(CODES)]
@@ -60,9 +62,12 @@ def run(tier):
     intern = gitskin.Interner()
     pal_index = {(0, 0, i + 1): i + 1 for i in range(4)}
 
+    def authors_of(job):
+        return AUTHORS_WIDE if len(job[0]["ks"]) % 3 == 0 else AUTHORS
+
     def one(job):
         c, fmt, renamed = job
-        data, meta = make_input(c["ks"], renamed)
+        data, meta = make_input(c["ks"], renamed, authors_of(job))
         args = ["--no-gitconfig", "--syntax-theme", "none", "--blame-palette", " ".join(PALETTE[:c["P"]]),
                 "--blame-timestamp-output-format", "%Y-%m-%d %H:%M:%S %z", "--width", "200"] + FORMATS[fmt]
         return data, meta, core.run_delta(args, data)
@@ -83,7 +88,7 @@ def run(tier):
             commit = which(COMMITS)
             shows_all = fmt != "commit-only"
             rows.append({"c": pal_index.get(tuple(bg), 0), "code": intern(code.encode()), "num": int(num) if num else 0,
-                         "commit": commit, "author": which(AUTHORS) if shows_all else commit,
+                         "commit": commit, "author": which(authors_of((c, fmt, renamed))) if shows_all else commit,
                          "time": which(TIMES) if shows_all else commit})
         events.append({"run": i, "NK": 4, "P": c["P"], "ks": c["ks"],
                        "lines": [{"num": n, "code": intern(code.encode())} for n, code in meta],
